@@ -44,6 +44,10 @@ CLAIMS = {
   text="(A) TLC model-checks the implementation-shaped TheoryLE/TheoryCombine over all triples of valid theories of the interacting flags: partial order, combine is an upper bound, order respects Expressible. (B/C) real get_logic/get_theory results on TLC-generated formulas are validated against the independent feature extraction Features() (bound-variable sorts, operator families, non-linearity, const arrays, custom sorts, quantifiers); the real <= on all named logics (dumped from the code at check time), combine on the closure of reachable theories, and get_closer_logic/most_generic_logic on enumerated supported-logic subsets are validated by TLC against the order axioms and selection contracts.",
   note="Features()/Expressible() of Logics.tla; difference-logic refinements are not among the listed features; NoLogicAvailableError is an allowed answer of get_logic",
   tech=TECH + "design model checking of the order + trace validation of recorded detection / order / selection results", ref="DESIGN.md 3 C13"),
+ "C16": dict(
+  text="(A) TLC explores every command history (length <= 6) of the implementation-shaped TrackingSolver model (pending_pop, backtrack points, clear_pending_pop decorator) and checks it refines the abstract SMT-LIB assertion stack. (B/C) all legal histories of the abstract machine up to length 3-4 (plus TLC-simulated histories of length 14) are replayed into real SmtLibScript objects built by the real parser (get_last_formula with goals read for every prefix) and into real IncrementalTrackingSolver subclasses incl. the in-tree Portfolio; every observation is validated by TLC against the abstract state (live assertions, live objectives, soft groups).",
+  note="AssertionStack.tla is the SMT-LIB assertion-stack semantics with objectives / soft assertions scoped by level; solver doubles have no-op _push/_pop/_solve",
+  tech=TECH + "design model checking (refinement) + TLC-enumerated histories replayed into scripts/solvers, observations validated by TLC", ref="DESIGN.md 3 C16"),
 }
 NA_REASON = "check under construction in this round (planned with the same TLA+/TLC technique, see DESIGN.md)"
 
